@@ -115,9 +115,12 @@ func c07Gen(rng *rand.Rand, n int, args []string) {
 	var pkgs []*genPkg
 	var grams []gram
 	tried := 0
-	for len(pkgs) < n && tried < 80*n {
+	for len(pkgs) < n+n/8 && tried < 80*n {
 		tried++
 		k := 2 + rng.Intn(3)
+		if rng.Intn(7) == 0 {
+			k = 5 + rng.Intn(4) // up to lalr(8)
+		}
 		var g *cfg
 		if rng.Intn(3) == 0 {
 			g = lalrkMultiCFG(rng)
@@ -126,6 +129,15 @@ func c07Gen(rng *rand.Rand, n int, args []string) {
 		}
 		if g == nil || len(g.rules) == 0 || g.nterms > 8 {
 			continue
+		}
+		if rng.Intn(2) == 0 {
+			// a list of such phrases, L: S | L t S (the lookahead of a phrase's last reductions runs into the next phrase)
+			s0 := g.inputs[0].nt
+			l := g.nterms + g.nnonterms
+			g.nnonterms++
+			g.rules = append(g.rules, cfgRule{lhs: l, rhs: []int{s0}}, cfgRule{lhs: l, rhs: []int{l, 1 + rng.Intn(g.nterms-1), s0}})
+			g.inputs = []cfgInput{{nt: l, eoi: true}}
+			sx.Stat("gen_list_wrapped_tried", 1)
 		}
 		t, err := lalr.Compile(g.toLalr(), lalr.Options{Lookahead: k})
 		if err != nil || t == nil || t.SR+t.RR > 0 {
@@ -137,7 +149,9 @@ func c07Gen(rng *rand.Rand, n int, args []string) {
 		}
 		gr := gram{g: g, k: k, depth: t.UsedLADepth, stream: rng.Intn(3) == 0, invalid: rng.Intn(3) != 0}
 		// optimizeTables together with a conflict that needs deep lookahead is reported as an error by the compiler
-		gr.opt = t.UsedLADepth == 0 && rng.Intn(2) == 0
+		// (such a grammar does not "compile without errors": counted, no case); should it compile, the generated
+		// parser is judged like any other
+		gr.opt = rng.Intn(8) == 0 || (t.UsedLADepth == 0 && rng.Intn(2) == 0)
 		o := tmOpts{optimize: gr.opt}
 		if gr.stream {
 			o.extra = append(o.extra, "tokenStream = true")
@@ -165,8 +179,41 @@ func c07Gen(rng *rand.Rand, n int, args []string) {
 		}
 		gr := grams[i]
 		g := gr.g
-		strs := capLen(g.sampleInputs(rng, g.inputs[0].nt, 22), 12)
-		strs = append(strs, allStrings(g.nterms, 2)...)
+		// sentences of random derivations, all their single deletions, replacements of every position (two random
+		// terminals each: the twins' contexts differ in one token) and some insertions; plus the usual sample
+		var strs [][]int
+		prod := g.productive()
+		sseen := map[string]bool{}
+		for j := 0; j < 12; j++ {
+			budget := 2 + rng.Intn(12)
+			s := g.randomSentence(rng, g.inputs[0].nt, prod, &budget)
+			if s == nil || len(s) > 12 || sseen[sx.Ints(s)] {
+				continue
+			}
+			sseen[sx.Ints(s)] = true
+			strs = append(strs, s)
+			if len(sseen) > 5 {
+				continue
+			}
+			for pos := range s {
+				strs = append(strs, append(append([]int{}, s[:pos]...), s[pos+1:]...))
+				for r := 0; r < 2; r++ {
+					m := append([]int{}, s...)
+					m[pos] = 1 + rng.Intn(g.nterms-1)
+					strs = append(strs, m)
+				}
+				if rng.Intn(3) == 0 {
+					strs = append(strs, append(append(append([]int{}, s[:pos]...), 1+rng.Intn(g.nterms-1)), s[pos:]...))
+				}
+			}
+			strs = append(strs, append(append([]int{}, s...), 1+rng.Intn(g.nterms-1)))
+		}
+		strs = append(strs, capLen(g.sampleInputs(rng, g.inputs[0].nt, 10), 12)...)
+		if g.nterms <= 5 {
+			strs = append(strs, allStrings(g.nterms, 2)...)
+		} else {
+			strs = append(strs, allStrings(g.nterms, 1)...)
+		}
 		seen := map[string]bool{}
 		for _, s := range strs {
 			key := sx.Ints(s)
@@ -180,7 +227,7 @@ func c07Gen(rng *rand.Rand, n int, args []string) {
 				it.rends = append(it.rends, c07Render(rng, g, s, 1, 0, false), c07Render(rng, g, s, 2, 0, false),
 					c07Render(rng, g, s, 3, 0, gr.invalid), c07Render(rng, g, s, 3, 0, gr.invalid))
 				// one comment / invalid character in a single gap: every gap for short inputs, random gaps otherwise
-				if len(s) <= 6 {
+				if len(s) <= 8 {
 					for pos := 0; pos <= len(s); pos++ {
 						it.rends = append(it.rends, c07Render(rng, g, s, 4, pos, false))
 					}
@@ -208,6 +255,10 @@ func c07Gen(rng *rand.Rand, n int, args []string) {
 	for i, p := range pkgs {
 		gr := grams[i]
 		g := gr.g
+		if p.err != nil && gr.opt && gr.depth > 0 && strings.Contains(p.err.Error(), "optimizeTables is not supported when conflicts are resolved with") {
+			sx.Stat("gen_optimize_tables_with_deep_lookahead_refused", 1)
+			continue
+		}
 		if p.err != nil {
 			// a grammar lalr.Compile(Lookahead: k) accepts that textmapper cannot compile/generate/build
 			sx.Case("c07.nocompile", sx.List(g.cfgStr(), sx.Int(gr.k), sx.Str(p.tm), sx.Str(firstLines(p.err.Error(), 3))), "failed")
